@@ -94,6 +94,7 @@ type TrBagWire struct {
 }
 type TrRaw struct{ B []byte }
 type TrAny struct{ V interface{} }
+type Octet uint8 // a named byte: []Octet and [n]Octet are routed to the bytes machines by Kind
 type TrShape struct{ S Shape } // transform whose serial form is the keyed union
 type Disc struct{ V string }   // a union member with a transform entry of its own
 type TrPtr struct{ V string }  // transform whose serial form is a pointer (*TrWire)
@@ -143,6 +144,11 @@ var zoo = []zooType{
 	{30, reflect.TypeOf((*Shape)(nil)).Elem(), "(if 30)", nil},
 }
 
+func octSlice() *TD { return &TD{k: "x", oct: true, rt: reflect.TypeOf([]Octet(nil))} }
+func octArray(n int) *TD {
+	return &TD{k: "X", n: n, oct: true, rt: reflect.ArrayOf(n, reflect.TypeOf(Octet(0)))}
+}
+
 func zooByID(id int) *zooType {
 	for i := range zoo {
 		if zoo[i].id == id {
@@ -156,6 +162,7 @@ func zooByID(id int) *zooType {
 
 type TD struct {
 	k     string // b i8.. s x a bad X sl ar mp pt st nm if
+	oct   bool   // x / X over the named byte type Octet (printed xo / XO; the model reads them as x / X)
 	n     int    // X / ar length; st / nm / if id
 	elem  *TD    // sl ar pt nm(under) mp(value)
 	key   *TD    // mp key
@@ -175,7 +182,14 @@ var primKinds = map[string]reflect.Type{
 func (t *TD) String() string {
 	switch t.k {
 	case "X":
+		if t.oct {
+			return fmt.Sprintf("(XO %d)", t.n)
+		}
 		return fmt.Sprintf("(X %d)", t.n)
+	case "x":
+		if t.oct {
+			return "xo"
+		}
 	case "sl":
 		return "(sl " + t.elem.String() + ")"
 	case "ar":
@@ -248,6 +262,9 @@ func (e *typeEnv) mustParseType(s string) *TD {
 // typeOfSx builds a TD (with reflect.Type) from its s-expression; struct ids must be in the env or the zoo.
 func (e *typeEnv) typeOfSx(x *sx) (*TD, error) {
 	if !x.isL {
+		if x.atom == "xo" {
+			return octSlice(), nil
+		}
 		rt, ok := primKinds[x.atom]
 		if !ok {
 			return nil, fmt.Errorf("unknown type %q", x.atom)
@@ -263,6 +280,8 @@ func (e *typeEnv) typeOfSx(x *sx) (*TD, error) {
 	case "X":
 		n := num(1)
 		return &TD{k: "X", n: n, rt: reflect.ArrayOf(n, primKinds["u8"])}, nil
+	case "XO":
+		return octArray(num(1)), nil
 	case "sl", "pt":
 		el, err := e.typeOfSx(x.list[1])
 		if err != nil {
